@@ -3,3 +3,5 @@ import Hs.Thm.C10
 #print axioms Hs.C10.guarded_subs_are_separator_tests
 #print axioms Hs.C10.empty_containers_write_nothing
 #print axioms Hs.C10.C10_zinc
+#print axioms Hs.C10.C10_json
+#print axioms Hs.C10.C10_image
